@@ -438,3 +438,66 @@ func checkBracketSlashesNoticed(p *Prog, r *Result, rule string) int {
 	})
 	return n
 }
+
+// R17h / R18c: the pattern is UTF-8 text and the lexer decodes it rune by rune; a single byte of it stands for a
+// character only when it is below utf8.RuneSelf. `rune(s[i])` of a string byte — reading the escaped character "as it
+// stands" — turns the first byte of a multi-byte character into a Latin-1 rune and leaves its continuation bytes to be
+// read as garbage. In Regexp's call tree and in QuoteMeta/HasMeta no byte of a string is converted to a rune unless a
+// test on that very byte bounds it below utf8.RuneSelf.
+func checkByteWidenedToRune(p *Prog, r *Result, rule string) int {
+	pkg := p.Pkg("pattern")
+	info := pkg.TypesInfo
+	n := 0
+	for _, fd := range p.AllFuncDecls("pattern") {
+		if fd.Body == nil || strings.HasSuffix(p.Position(fd.Pos()), "_test.go") {
+			continue
+		}
+		var g *FGraph
+		k := 0
+		inspectNoLit(fd.Body, func(m ast.Node) bool {
+			c, ok := m.(*ast.CallExpr)
+			if !ok || len(c.Args) != 1 {
+				return true
+			}
+			tv, ok := info.Types[c.Fun]
+			if !ok || !tv.IsType() {
+				return true
+			}
+			bt, ok := tv.Type.Underlying().(*types.Basic)
+			if !ok || bt.Kind() != types.Int32 {
+				return true
+			}
+			ix, ok := ast.Unparen(c.Args[0]).(*ast.IndexExpr)
+			if !ok {
+				return true
+			}
+			if st, ok := info.TypeOf(ix.X).Underlying().(*types.Basic); !ok || st.Info()&types.IsString == 0 {
+				return true
+			}
+			k++
+			n++
+			key := fmt.Sprintf("%s#%s of a pattern byte %d", funcKey("pattern", fd), exprString(c.Fun), k)
+			if g == nil {
+				g = NewFGraph(info, fd.Body, nil)
+			}
+			blk := blockContaining(g, c)
+			want := exprString(ix)
+			ok2 := blk != nil && underEdges(g, blk, func(e *FEdge) bool {
+				be, ok := ast.Unparen(e.Cond).(*ast.BinaryExpr)
+				if !ok || e.Tag != nil || exprString(be.X) != want {
+					return false
+				}
+				v, has := info.Types[be.Y]
+				if !has || v.Value == nil {
+					return false
+				}
+				kv, _ := constant.Int64Val(constant.ToInt(v.Value))
+				return (be.Op == token.LSS && e.Pol && kv <= 128) || (be.Op == token.GEQ && !e.Pol && kv <= 128) || (be.Op == token.EQL && e.Pol && kv < 128)
+			})
+			r.Check(ok2, rule, key, c.Pos(), "under a test that bounds that byte below utf8.RuneSelf",
+				fmt.Sprintf("%s is one byte of the pattern promoted to a rune with no test that it is ASCII: for `\\é` that is the first byte of a two-byte character — the expression matches `Ã` followed by garbage, not the pattern with its escapes removed", want))
+			return true
+		})
+	}
+	return n
+}
